@@ -724,4 +724,334 @@ theorem K6_of_generated (tr : Link.Trace) (hg : GeneratedK6 lower tr) : Link.K6 
     rw [← ht]
     exact this
 
+/-! ### K2 (liveness): three goodbyes after every `unreg`, under the event-loop axiom `Fair` -/
+
+theorem run_step_of_mem : ∀ (steps : List Step) (h : Host) (T : Int), IsRun lower h T steps → ∀ st ∈ steps,
+    st.pre.step lower st.b = some (st.post, st.out) ∧ ∀ bt, blockTime st.b = some bt → bt = st.t := by
+  intro steps
+  induction steps with
+  | nil => intro h T _ st hst; cases hst
+  | cons s0 rest ih =>
+    intro h T hrun st hst
+    cases hrun with
+    | cons _ h' _ t b out _ hs hT hbt hrest =>
+      rcases List.mem_cons.mp hst with rfl | hst
+      · exact ⟨hs, hbt⟩
+      · exact ih h' t hrest st hst
+
+/-- all PTR items of a datagram whose records all have TTL 0 are goodbyes -/
+theorem bye_itemsOf (p : Pkt) (hz : ∀ r ∈ p.answers ++ p.additionals, r.ttl = 0) (r0 : Rec) (alias : String)
+    (hr0 : r0 ∈ p.answers ++ p.additionals) (hwf : WfPtr r0 alias) :
+    Link.bye (sigR lower N r0 alias) (itemsOf lower N p) = true := by
+  have hmem : Link.Item.ptr (sigR lower N r0 alias) r0.ttl (fullFor lower p alias) ∈ itemsOf lower N p := by
+    unfold itemsOf
+    rw [List.mem_filterMap]
+    refine ⟨r0, hr0, ?_⟩
+    unfold ptrItem
+    rw [hwf.1]
+    simp only [hwf.2.1, hwf.2.2, and_self, if_true]
+    rfl
+  have hs : sigR lower N r0 alias ∈ Link.ptrSvcs (itemsOf lower N p) := by
+    unfold Link.ptrSvcs
+    rw [List.mem_filterMap]
+    exact ⟨_, hmem, rfl⟩
+  unfold Link.bye
+  cases hp : Link.ptrOf (sigR lower N r0 alias) (itemsOf lower N p) with
+  | none =>
+    exfalso
+    -- the first pointer item exists
+    have : ∀ (items : List Link.Item) (s : Link.Svc), s ∈ Link.ptrSvcs items → Link.ptrOf s items ≠ none := by
+      intro items
+      induction items with
+      | nil => intro s h; simp [Link.ptrSvcs] at h
+      | cons it rest ih =>
+        intro s h
+        cases it with
+        | ptr s' ttl full =>
+          simp only [Link.ptrOf]
+          by_cases hs' : s' = s
+          · simp [hs']
+          · rw [if_neg hs']
+            apply ih
+            simp only [Link.ptrSvcs, List.filterMap_cons, List.mem_cons] at h
+            rcases h with h | h
+            · exact absurd h.symm hs'
+            · exact h
+        | query ty known qu =>
+          simp only [Link.ptrOf]
+          apply ih
+          simpa [Link.ptrSvcs, List.filterMap_cons] using h
+    exact this _ _ hs hp
+  | some v =>
+    obtain ⟨ttl, full⟩ := v
+    have hitem := ptrOf_item hp
+    unfold itemsOf at hitem
+    rw [List.mem_filterMap] at hitem
+    obtain ⟨r, hr, hri⟩ := hitem
+    obtain ⟨alias', _, _, rfl⟩ := ptrItem_some lower N p r _ ttl full hri
+    simp [hz r hr]
+
+theorem broadcastPkt_bye (s : Register.Svc) (ad : Bool) :
+    Link.bye (sigma lower N s) (itemsOf lower N (broadcastPkt s (some 0) ad)) = true := by
+  have hw := svc_ptr_wf s (some 0)
+  have := bye_itemsOf lower N (broadcastPkt s (some 0) ad)
+    (by intro r hr; simp only [broadcastPkt, List.append_nil] at hr; exact broadcast_ttl0 s ad r hr)
+    (s.ptr (some 0)) s.name (by simp [broadcastPkt, broadcastAnswers]) ⟨hw.1, hw.2.2.1, hw.2.2.2⟩
+  simpa [sigR, sigma, hw.2.1] using this
+
+/-- executing a goodbye task: the datagram leaves, and the continuation (if any) is pending -/
+theorem exec_goodbye (st : Step) (τ : Register.Task) (hs : st.pre.step lower st.b = some (st.post, st.out))
+    (hb : st.b = .task τ.oid τ.ttl τ.addresses τ.due)
+    (hf : findTask st.pre.tasks τ.oid τ.ttl τ.addresses τ.due = some τ) (httl : τ.ttl = some 0) (hopen : st.pre.done = false) :
+    st.out = [broadcastPkt τ.svc (some 0) τ.addresses] ∧
+    (τ.i + 1 < 3 → ({ τ with i := τ.i + 1, due := τ.due + τ.interval } : Register.Task) ∈ st.post.tasks) := by
+  rw [hb] at hs
+  simp only [Host.step, hf] at hs
+  simp only [Task.step, httl, Option.isNone_some, Zc.GenFacts.Goodbye.announce_stops_eq, Bool.false_and, Bool.false_eq_true,
+    if_false, Zc.GenFacts.Register.broadcast_count_eq] at hs
+  by_cases hi : τ.i + 1 < 3
+  · simp only [hi, if_true, Option.some.injEq, Prod.mk.injEq] at hs
+    obtain ⟨hpost, hout⟩ := hs
+    refine ⟨?_, fun _ => ?_⟩
+    · rw [← hout]; simp [emit, Zc.GenFacts.Goodbye.send_is_noop_eq, hopen]
+    · rw [← hpost]; simp [httl]
+  · simp only [hi, if_false, Option.some.injEq, Prod.mk.injEq] at hs
+    obtain ⟨_, hout⟩ := hs
+    exact ⟨by rw [← hout]; simp [emit, Zc.GenFacts.Goodbye.send_is_noop_eq, hopen], fun h => absurd h hi⟩
+
+/-- executing a step of a close sequence -/
+theorem exec_allStep (st : Step) (a : AllTask) (hs : st.pre.step lower st.b = some (st.post, st.out))
+    (hb : st.b = .allStep a.due) (hf : st.pre.closing.find? (fun x => x.due == a.due) = some a) (hopen : st.pre.done = false) :
+    st.out = [allPkt a.answers] ∧
+    (a.i + 1 < 3 → ({ a with i := a.i + 1, due := a.due + Gen.unregisterTime } : AllTask) ∈ st.post.closing) := by
+  rw [hb] at hs
+  simp only [Host.step, hf, Zc.GenFacts.Register.broadcast_count_eq, Option.some.injEq, Prod.mk.injEq] at hs
+  obtain ⟨hpost, hout⟩ := hs
+  refine ⟨by rw [← hout]; simp [emit, Zc.GenFacts.Goodbye.send_is_noop_eq, hopen], fun hi => ?_⟩
+  rw [← hpost]
+  simp [hi]
+
+theorem mcastAt_of_out (steps : List Step) (st : Step) (hst : st ∈ steps) (p : Pkt) (hp : p ∈ st.out) (s : Link.Svc)
+    (hs : s.owner = N.host) (hb : Link.bye s (itemsOf lower N p) = true) :
+    Link.mcastAt (events lower N steps) s.owner st.t (Link.bye s) = true := by
+  rw [Link.mcastAt_iff]
+  refine ⟨⟨st.t, N.host, 0, none, itemsOf lower N p⟩, ?_, hs.symm, rfl, rfl, hb⟩
+  obtain ⟨pre, post, rfl⟩ := List.append_of_mem hst
+  rw [events_append, events_cons, sends_append, sends_append, sends_stepEvents]
+  exact List.mem_append_right _ (List.mem_append_left _ (List.mem_map.mpr ⟨p, hp, rfl⟩))
+
+/-- which blocks take a service out of the registry -/
+theorem removes_cases (st : Step) (hs : st.pre.step lower st.b = some (st.post, st.out)) (hd : Disc lower st) (s : Link.Svc)
+    (hr : s ∈ removes lower N st) :
+    (∃ s' oid now, st.b = .unregister s' oid now ∧ s = sigma lower N s') ∨
+    (∃ now, st.b = .unregisterAll now ∧ st.pre.reg.isEmpty = false ∧ ∃ e ∈ st.pre.reg, sigma lower N e.svc = s) := by
+  obtain ⟨t, b, h, h', out⟩ := st
+  simp only [removes, List.mem_filter, Bool.not_eq_true', List.contains_eq_mem, decide_eq_false_iff_not, sig, List.mem_map] at hr
+  obtain ⟨⟨e, he, hes⟩, hnot⟩ := hr
+  simp only at hs hd he hnot ⊢
+  have keep : h'.reg = h.reg → False := fun hreg => hnot ⟨e, by rw [hreg]; exact he, hes⟩
+  cases b with
+  | register s' oid now =>
+    exfalso
+    simp only [Host.step] at hs
+    split at hs
+    · simp at hs
+    split at hs
+    · simp at hs
+    simp only [Option.some.injEq, Prod.mk.injEq] at hs
+    obtain ⟨rfl, _⟩ := hs
+    exact hnot ⟨e, List.mem_append_left _ he, hes⟩
+  | update s' oid now =>
+    exfalso
+    simp only [Host.step] at hs
+    split at hs
+    · simp at hs
+    simp only [Option.some.injEq, Prod.mk.injEq] at hs
+    obtain ⟨rfl, _⟩ := hs
+    by_cases hk : key lower e.svc = key lower s'
+    · have hd' : lower e.svc.type = lower s'.type := hd e he hk
+      exact hnot ⟨⟨s', oid⟩, by simp, by rw [← sigma_of_key lower N e.svc s' hk hd']; exact hes⟩
+    · refine hnot ⟨e, List.mem_append_left _ ?_, hes⟩
+      unfold regRemove
+      rw [List.mem_filter]
+      exact ⟨he, by simpa using hk⟩
+  | unregister s' oid now =>
+    left
+    refine ⟨s', oid, now, rfl, ?_⟩
+    simp only [Host.step, Option.some.injEq, Prod.mk.injEq] at hs
+    obtain ⟨rfl, _⟩ := hs
+    by_cases hk : key lower e.svc = key lower s'
+    · have hd' : lower e.svc.type = lower s'.type := hd e he hk
+      rw [← hes]; exact sigma_of_key lower N e.svc s' hk hd'
+    · exfalso
+      refine hnot ⟨e, ?_, hes⟩
+      unfold regRemove
+      rw [List.mem_filter]
+      exact ⟨he, by simpa using hk⟩
+  | unregisterAll now =>
+    right
+    refine ⟨now, rfl, ?_, e, he, hes⟩
+    cases hreg : h.reg with
+    | nil => rw [hreg] at he; cases he
+    | cons a l => rfl
+  | task oid ttl ad due => exact (keep (step_reg_other lower h h' _ out hs trivial)).elim
+  | answer rs => exact (keep (step_reg_other lower h h' _ out hs trivial)).elim
+  | enqueue delayed now draw answers => exact (keep (step_reg_other lower h h' _ out hs trivial)).elim
+  | ready delayed now => exact (keep (step_reg_other lower h h' _ out hs trivial)).elim
+  | allStep due => exact (keep (step_reg_other lower h h' _ out hs trivial)).elim
+  | close => exact (keep (step_reg_other lower h h' _ out hs trivial)).elim
+
+/-- **K2 (liveness half) from the C08 host machine, under the event-loop axiom.**  On the link trace of a timed, disciplined run
+in which pending task / close-sequence steps are executed at their due times (`Fair`) and the instance is not yet closed
+(`Open`), every `unreg` at `t` is followed by multicast goodbyes for that service at `t`, `t + 125`, `t + 250` (those due within
+the window): `C08_goodbyes` / `C08_goodbyes_all` executed. -/
+theorem K2l_of_run (steps : List Step) (T0 endT : Int) (hrun : IsRun lower Host.init T0 steps)
+    (hd : ∀ st ∈ steps, Disc lower st) (hfair : Fair steps endT) (hopen : Open steps) :
+    Link.K2l Link.Cfg.paper (events lower N steps) endT = true := by
+  unfold Link.K2l
+  rw [List.all_eq_true]
+  intro u hu
+  -- the step that removed the service
+  have : ∃ st ∈ steps, u.2 ∈ removes lower N st ∧ u.1 = st.t := by
+    clear hfair hopen hd hrun
+    induction steps with
+    | nil => simp [events_nil, Link.unregs] at hu
+    | cons s0 rest ih =>
+      rw [events_cons, unregs_append, List.mem_append] at hu
+      rcases hu with hu | hu
+      · rw [unregs_stepEvents, List.mem_map] at hu
+        obtain ⟨s, hs, rfl⟩ := hu
+        exact ⟨s0, by simp, hs, rfl⟩
+      · obtain ⟨st, hst, h1, h2⟩ := ih hu
+        exact ⟨st, by simp [hst], h1, h2⟩
+  obtain ⟨st, hst, hrem, hut⟩ := this
+  obtain ⟨pre, post, hsplit⟩ := List.append_of_mem hst
+  have hstep := run_step_of_mem lower steps Host.init T0 hrun
+  have howner : u.2.owner = N.host := by
+    simp only [removes, List.mem_filter, sig, List.mem_map] at hrem
+    obtain ⟨⟨e, _, hes⟩, _⟩ := hrem
+    rw [← hes]; rfl
+  simp only [List.all_cons, List.all_nil, Bool.and_true, Bool.and_eq_true, Bool.or_eq_true, Bool.not_eq_true',
+    decide_eq_false_iff_not]
+  rcases removes_cases lower N st (hstep st hst).1 (hd st hst) u.2 hrem with ⟨s', oid, now, hb, hsig⟩ | ⟨now, hb, hne, e, he, hes⟩
+  · -- async_unregister_service: a goodbye task with three steps
+    have hnow : now = st.t := (hstep st hst).2 now (by rw [hb]; rfl)
+    have hpost : Register.Task.mk s' oid Gen.unregisterTime (some 0)
+        (Gen.Register.goodbye_addresses (hostShared lower (regRemove lower st.pre.reg (key lower s')) s')) 0 now
+        ∈ st.post.tasks := by
+      have h1 := (hstep st hst).1
+      rw [hb] at h1
+      simp only [Host.step, Option.some.injEq, Prod.mk.injEq] at h1
+      rw [← h1.1]
+      simp
+    -- one link of the chain
+    have link : ∀ (pre1 : List Step) (st1 : Step) (post1 : List Step) (τ : Register.Task), steps = pre1 ++ st1 :: post1 → τ ∈ st1.post.tasks →
+        τ.ttl = some 0 → τ.svc = s' → τ.interval = Gen.unregisterTime → τ.due ≤ endT →
+        Link.mcastAt (events lower N steps) u.2.owner τ.due (Link.bye u.2) = true ∧
+        (τ.i + 1 < 3 → ∃ pre2 st2 post2 τ', steps = pre2 ++ st2 :: post2 ∧ τ' ∈ st2.post.tasks ∧ τ'.ttl = some 0 ∧ τ'.svc = s' ∧
+          τ'.interval = Gen.unregisterTime ∧ τ'.due = τ.due + 125 ∧ τ'.i = τ.i + 1) := by
+      intro pre1 st1 post1 τ hsp1 hτ httl hsvc hint hdue
+      obtain ⟨p1, st2, p2, hpost1, hb2, hf2⟩ := hfair.1 pre1 st1 post1 hsp1 τ hτ hdue
+      have hst2 : st2 ∈ steps := by rw [hsp1, hpost1]; simp
+      have hex := exec_goodbye lower st2 τ (hstep st2 hst2).1 hb2 hf2 httl (hopen st2 hst2)
+      have ht2 : τ.due = st2.t := (hstep st2 hst2).2 τ.due (by rw [hb2]; rfl)
+      refine ⟨?_, fun hi => ⟨pre1 ++ st1 :: p1, st2, p2, _, ?_, hex.2 hi, httl, hsvc, hint, ?_, rfl⟩⟩
+      · rw [ht2]
+        refine mcastAt_of_out lower N steps st2 hst2 (broadcastPkt τ.svc (some 0) τ.addresses) (by rw [hex.1]; simp) u.2 howner ?_
+        rw [hsig, hsvc]
+        exact broadcastPkt_bye lower N s' τ.addresses
+      · rw [hsp1, hpost1]; simp
+      · simp only [hint, Zc.GenFacts.Goodbye.unregisterTime_eq]; rfl
+    refine ⟨?_, ?_, ?_⟩
+    · by_cases h0 : u.1 + 0 ≤ endT
+      · right
+        have := (link pre st post _ hsplit hpost rfl rfl rfl (by simp only; omega)).1
+        simpa [hut, hnow] using this
+      · left; exact h0
+    · by_cases h1 : u.1 + 125 ≤ endT
+      · right
+        obtain ⟨_, hnext⟩ := link pre st post _ hsplit hpost rfl rfl rfl (by simp only; omega)
+        obtain ⟨pre2, st2, post2, τ', hsp2, hτ', httl', hsvc', hint', hdue', _⟩ := hnext (by simp)
+        have := (link pre2 st2 post2 τ' hsp2 hτ' httl' hsvc' hint' (by rw [hdue']; simp only; omega)).1
+        rw [hdue'] at this
+        simpa [hut, hnow] using this
+      · left; exact h1
+    · by_cases h2 : u.1 + 250 ≤ endT
+      · right
+        obtain ⟨_, hnext⟩ := link pre st post _ hsplit hpost rfl rfl rfl (by simp only; omega)
+        obtain ⟨pre2, st2, post2, τ', hsp2, hτ', httl', hsvc', hint', hdue', hi'⟩ := hnext (by simp)
+        obtain ⟨_, hnext2⟩ := link pre2 st2 post2 τ' hsp2 hτ' httl' hsvc' hint' (by rw [hdue']; simp only; omega)
+        obtain ⟨pre3, st3, post3, τ'', hsp3, hτ'', httl'', hsvc'', hint'', hdue'', _⟩ := hnext2 (by rw [hi']; simp)
+        have := (link pre3 st3 post3 τ'' hsp3 hτ'' httl'' hsvc'' hint'' (by rw [hdue'', hdue']; simp only; omega)).1
+        rw [hdue'', hdue'] at this
+        have e : now + 125 + 125 = st.t + 250 := by omega
+        simp only at this
+        rw [e] at this
+        simpa [hut] using this
+      · left; exact h2
+  · -- async_unregister_all_services: the datagram now, and a close sequence with two more steps
+    have hnow : now = st.t := (hstep st hst).2 now (by rw [hb]; rfl)
+    let A := st.pre.reg.flatMap (fun e => broadcastAnswers e.svc (some 0) true)
+    have hA0 : ∀ r ∈ A, r.ttl = 0 := by
+      intro r hr
+      rw [List.mem_flatMap] at hr
+      obtain ⟨e', _, hre⟩ := hr
+      exact broadcast_ttl0 e'.svc true r hre
+    have hbyeA : Link.bye u.2 (itemsOf lower N (allPkt A)) = true := by
+      have hw := svc_ptr_wf e.svc (some 0)
+      have := bye_itemsOf lower N (allPkt A) (by intro r hr; simp only [allPkt, List.append_nil] at hr; exact hA0 r hr)
+        (e.svc.ptr (some 0)) e.svc.name
+        (by simp only [allPkt, List.append_nil]; rw [List.mem_flatMap]; exact ⟨e, he, by simp [broadcastAnswers]⟩)
+        ⟨hw.1, hw.2.2.1, hw.2.2.2⟩
+      rw [← hes]
+      simpa [sigR, sigma, hw.2.1] using this
+    have h1 := (hstep st hst).1
+    rw [hb] at h1
+    simp only [Host.step, hne, Bool.false_eq_true, if_false, Option.some.injEq, Prod.mk.injEq] at h1
+    obtain ⟨hpost, hout⟩ := h1
+    have hclosing : ({ answers := A, i := 1, due := now + Gen.unregisterTime } : AllTask) ∈ st.post.closing := by
+      rw [← hpost]; simp [A]
+    have link : ∀ (pre1 : List Step) (st1 : Step) (post1 : List Step) (a : AllTask), steps = pre1 ++ st1 :: post1 → a ∈ st1.post.closing →
+        a.answers = A → a.due ≤ endT →
+        Link.mcastAt (events lower N steps) u.2.owner a.due (Link.bye u.2) = true ∧
+        (a.i + 1 < 3 → ∃ pre2 st2 post2 a', steps = pre2 ++ st2 :: post2 ∧ a' ∈ st2.post.closing ∧ a'.answers = A ∧
+          a'.due = a.due + 125 ∧ a'.i = a.i + 1) := by
+      intro pre1 st1 post1 a hsp1 ha hans hdue
+      obtain ⟨p1, st2, p2, hpost1, hb2, hf2⟩ := hfair.2 pre1 st1 post1 hsp1 a ha hdue
+      have hst2 : st2 ∈ steps := by rw [hsp1, hpost1]; simp
+      have hex := exec_allStep lower st2 a (hstep st2 hst2).1 hb2 hf2 (hopen st2 hst2)
+      have ht2 : a.due = st2.t := (hstep st2 hst2).2 a.due (by rw [hb2]; rfl)
+      refine ⟨?_, fun hi => ⟨pre1 ++ st1 :: p1, st2, p2, _, ?_, hex.2 hi, hans, ?_, rfl⟩⟩
+      · rw [ht2]
+        exact mcastAt_of_out lower N steps st2 hst2 (allPkt a.answers) (by rw [hex.1]; simp) u.2 howner (by rw [hans]; exact hbyeA)
+      · rw [hsp1, hpost1]; simp
+      · simp only [Zc.GenFacts.Goodbye.unregisterTime_eq]; rfl
+    refine ⟨?_, ?_, ?_⟩
+    · by_cases h0 : u.1 + 0 ≤ endT
+      · right
+        have := mcastAt_of_out lower N steps st hst (allPkt A)
+          (by rw [← hout]; simp [emit, Zc.GenFacts.Goodbye.send_is_noop_eq, hopen st hst, A]) u.2 howner hbyeA
+        simpa [hut] using this
+      · left; exact h0
+    · by_cases h1' : u.1 + 125 ≤ endT
+      · right
+        have := (link pre st post _ hsplit hclosing rfl
+          (by simp only [Zc.GenFacts.Goodbye.unregisterTime_eq]; omega)).1
+        simp only [Zc.GenFacts.Goodbye.unregisterTime_eq] at this
+        simpa [hut, hnow] using this
+      · left; exact h1'
+    · by_cases h2 : u.1 + 250 ≤ endT
+      · right
+        obtain ⟨_, hnext⟩ := link pre st post _ hsplit hclosing rfl
+          (by simp only [Zc.GenFacts.Goodbye.unregisterTime_eq]; omega)
+        obtain ⟨pre2, st2, post2, a', hsp2, ha', hans', hdue', _⟩ := hnext (by simp)
+        have := (link pre2 st2 post2 a' hsp2 ha' hans'
+          (by rw [hdue']; simp only [Zc.GenFacts.Goodbye.unregisterTime_eq]; omega)).1
+        rw [hdue'] at this
+        simp only [Zc.GenFacts.Goodbye.unregisterTime_eq] at this
+        have e : now + (125 : Nat) + 125 = st.t + 250 := by omega
+        rw [e] at this
+        simpa [hut] using this
+      · left; exact h2
+
 end Zc.Bridge
